@@ -783,8 +783,12 @@ class _ColorConfColorDescr:
 
             if self.fg_color == "":
                 self.fg_color = parent.fg_color
+            elif self.fg_color == "-":
+                self.fg_color = None  # explicit terminal default
             if self.bg_color == "":
                 self.bg_color = parent.bg_color
+            elif self.bg_color == "-":
+                self.bg_color = None
             self.modifiers = {**parent.modifiers, **self.modifiers}
         else:
             assert parent is None
